@@ -118,6 +118,15 @@ func (s *vtSrvConn) ReadFrom(b []byte) (int, net.Addr, error) {
 }
 
 func (s *vtSrvConn) WriteTo(b []byte, addr net.Addr) (int, error) {
+	if s.w.auto {
+		if c := s.w.cli[vtLabelOf(addr)]; c != nil {
+			select {
+			case c.conn.rd <- append([]byte(nil), b...):
+			case <-s.w.done:
+			}
+		}
+		return len(b), nil
+	}
 	pw := &vtPendW{b: append([]byte(nil), b...), addr: addr, rel: make(chan struct{})}
 	s.w.mu.Lock()
 	s.w.pendW = append(s.w.pendW, pw)
@@ -150,6 +159,13 @@ type vtCliConn struct {
 }
 
 func (c *vtCliConn) Write(b []byte) (int, error) {
+	if c.w.auto {
+		select {
+		case c.w.srv.in <- vtPkt{append([]byte(nil), b...), vtAddrs[c.name]}:
+		case <-c.w.done:
+		}
+		return len(b), nil
+	}
 	c.mu.Lock()
 	c.sent = append(c.sent, append([]byte(nil), b...))
 	c.mu.Unlock()
@@ -225,9 +241,11 @@ type vtWorld struct {
 	nclose int
 	hs     []vtHandler // mirror of the goroutines parked at a gate
 	anom   []string
+	auto   bool // stress mode: no gates, datagrams are forwarded as they are written
 }
 
 var vtCurrent atomic.Value // *vtWorld, for the log tap
+var vtLeftOpen int64       // Requester.Close calls after which the dialled transport was still open
 
 type vtLogTap struct{}
 
@@ -259,8 +277,8 @@ func (w *vtWorld) pause() {
 	}
 }
 
-func vtNewWorld(t testing.TB, clients []string, serial int) *vtWorld {
-	w := &vtWorld{seed: vSeed(), cli: map[string]*vtClient{}, ev: make(chan struct{}, 1), done: make(chan struct{}),
+func vtNewWorld(t testing.TB, clients []string, serial int, auto ...bool) *vtWorld {
+	w := &vtWorld{auto: len(auto) > 0 && auto[0], seed: vSeed(), cli: map[string]*vtClient{}, ev: make(chan struct{}, 1), done: make(chan struct{}),
 		sigs: map[string]vtHandler{}, srvEnd: make(chan struct{})}
 	h := sha256.Sum256([]byte(fmt.Sprintf("verif-x02-noise-%d-%d", w.seed, serial)))
 	priv := h[:]
@@ -293,6 +311,10 @@ func vtNewWorld(t testing.TB, clients []string, serial int) *vtWorld {
 
 // the registration server's processMsg stand-in: answers "re:"+payload; payloads starting with FAIL are refused
 func (w *vtWorld) callback(b []byte) ([]byte, error) {
+	if w.auto {
+		atomic.AddInt64(&w.calls, 1)
+		return append([]byte("re:"), b...), nil
+	}
 	pc := &vtPendCB{payload: append([]byte(nil), b...), rel: make(chan struct{})}
 	w.mu.Lock()
 	w.pendCB = append(w.pendCB, pc)
@@ -611,6 +633,9 @@ func (w *vtWorld) apply(step map[string]any) map[string]any {
 		c.closed = true
 		c.cq = 0
 		w.nclose++
+		if atomic.LoadInt64(&c.conn.nclose) == 0 {
+			atomic.AddInt64(&vtLeftOpen, 1)
+		}
 		if c.pending != nil {
 			r := map[string]any{}
 			w.result(c, r)
@@ -798,8 +823,8 @@ func (w *vtWorld) apply(step map[string]any) map[string]any {
 		case "DeliverR":
 			w.rnet = append(w.rnet[:i], w.rnet[i+1:]...)
 			c := w.cli[dst]
-			if c == nil {
-				break // the outside host's own mail
+			if c == nil || c.n == 0 {
+				break // the outside host's own mail / a requester that has not dialled its transport yet: nothing listens
 			}
 			select {
 			case c.conn.rd <- d.b:
@@ -921,6 +946,9 @@ func TestVerifDnsTunnelReplay(t *testing.T) {
 			t.Fatalf("bad behaviour: %v", err)
 		}
 		nb++
+		if nm >= 25 {
+			return // enough divergences to report; do not wait out the rest
+		}
 		for attempt := 0; attempt < 2; attempt++ {
 			serial++
 			w := vtNewWorld(t, vtClientsOf(beh), serial)
@@ -961,7 +989,8 @@ func TestVerifDnsTunnelReplay(t *testing.T) {
 			break
 		}
 	})
-	out.Emit(map[string]any{"kind": "summary", "behaviours": nb, "steps": ns, "mismatches": nm, "classes": classes})
+	out.Emit(map[string]any{"kind": "summary", "behaviours": nb, "steps": ns, "mismatches": nm, "classes": classes,
+		"transport_left_open": atomic.LoadInt64(&vtLeftOpen)})
 }
 
 // seeded random schedules over a larger alphabet than TLC explores exhaustively, recorded for Trace_DnsTunnel
@@ -1081,4 +1110,83 @@ func TestVerifDnsTunnelRandom(t *testing.T) {
 		}
 		w.teardown()
 	}
+}
+
+// real concurrency, no gates and no faults: several requesters fire requests at the one responder at once; every call must
+// return the callback's answer to ITS OWN request (the responder's goroutines share nothing they should not)
+func TestVerifDnsTunnelStress(t *testing.T) {
+	out := vOpenOut(t)
+	defer out.Close()
+	log.SetOutput(vtLogTap{})
+	defer log.SetOutput(io.Discard)
+	rounds := vEnvInt("VERIF_ROUNDS", 6)
+	const perClient = 60
+	var mu sync.Mutex
+	nprop := 0
+	prop := func(p, detail string) {
+		mu.Lock()
+		defer mu.Unlock()
+		nprop++
+		if nprop <= 20 {
+			out.Emit(map[string]any{"kind": "prop", "prop": p, "detail": detail})
+		}
+	}
+	total, okn := 0, 0
+	for round := 0; round < rounds; round++ {
+		clients := []string{"c1", "c2", "c3"}
+		w := vtNewWorld(t, clients, 2000000+round, true)
+		var wg sync.WaitGroup
+		for _, name := range clients {
+			wg.Add(1)
+			go func(c *vtClient) {
+				defer wg.Done()
+				for i := 1; i <= perClient; i++ {
+					k := vtKey{c.name, i}
+					c.n = i
+					w.startCall(c, vtPayload(k, "good", w.seed))
+					got := map[string]any{}
+					w.result(c, got)
+					mu.Lock()
+					total++
+					mu.Unlock()
+					switch {
+					case got["r"] == "blocked":
+						prop("stress:request-blocked", fmt.Sprintf("request %s.%d got no answer although nothing was lost", c.name, i))
+						return
+					case got["r"] != "ok":
+						prop("stress:request-failed-without-fault", fmt.Sprintf("request %s.%d failed although the network lost and duplicated nothing (%v)", c.name, i, got["panic"]))
+					case got["body"] != k:
+						prop("stress:wrong-answer", fmt.Sprintf("request %s.%d was answered with the answer to %v", c.name, i, got["body"]))
+					default:
+						mu.Lock()
+						okn++
+						mu.Unlock()
+					}
+				}
+			}(w.cli[name])
+		}
+		wg.Wait()
+		if n := atomic.LoadInt64(&w.calls); int(n) != len(clients)*perClient {
+			prop("stress:callback-count", fmt.Sprintf("%d requests, %d callback invocations", len(clients)*perClient, n))
+		}
+		if n := atomic.LoadInt64(&w.nterm); n != 0 {
+			prop("stress:query-rejected", fmt.Sprintf("%d well-formed queries were refused by the responder", n))
+		}
+		w.teardown()
+	}
+	// as-found probe (reported as a note, not a verdict): Close on a requester that never dialled
+	probe := "error-or-nil"
+	func() {
+		defer func() {
+			if x := recover(); x != nil {
+				probe = "panic"
+			}
+		}()
+		rq, err := requester.NewRequester(&requester.Config{TransportMethod: requester.UDP, Target: vtTarget, BaseDomain: vtDomainStr, Pubkey: make([]byte, 32)})
+		if err == nil {
+			rq.Close()
+		}
+	}()
+	out.Emit(map[string]any{"kind": "summary", "driver": "stress", "rounds": rounds, "requests": total, "ok": okn, "props": nprop,
+		"close_before_first_request": probe})
 }
